@@ -17,10 +17,12 @@
        `worker/consumer-stops-early`), par_stage_quiesces_partial.
      - multiUse and parallel map/accept read their source on the calling goroutine; a panic of the source is recovered
        into an error element (two `fix:` commits): source_panic_strands_none; before: source_panic_before_repair_refuted.
+     - multiUse: Conc/MultiUse.v models CopyProducer.run and the consumer goroutines incl. the 5 s timeout:
+       multiuse_quiesces (every consumer behaviour, every source, every interleaving).
    Observed, not proved: that the Go runtime really ends these goroutines (goroutine profile after a grace period). *)
 From P2 Require Import Base.Prelude Lex.Token Lex.Tok Lex.TokProofs.
 From P2 Require Import Conc.ParMap Conc.Quiesce.
-From P2 Require Conc.TokChan Conc.TokChanProofs Conc.TokSysProofs.
+From P2 Require Conc.TokChan Conc.TokChanProofs Conc.TokSysProofs Conc.MultiUse Conc.MultiUseProofs.
 
 (* the repaired Parse, every token list, every parser (k receives), EVERY interleaving tr: at most max(#tokens,k)+3
    actions; exactly that many iff both goroutines have returned; if nothing more can happen the tokenizer goroutine
@@ -111,6 +113,33 @@ Theorem source_panic_before_repair_refuted : forall waiting evs,
   stranded false waiting evs = if existsb (fun e => match e with EvPanic => true | EvItem => false end) evs then waiting else 0.
 Proof. exact TokChanProofs.stranded_unrecovered. Qed.
 
+(* ---- multiUse (Conc/MultiUse.v: List.MultiUse over iterator.CopyProducer - run on the calling goroutine, n consumer
+   goroutines, the channels h.c / h.stop, errorTerm, the buffered ack channel, the 5 s timeout).  For every number of
+   consumers, EVERY combination of consumer behaviours (reads everything / takes k elements and stops, fails or panics
+   there / never touches the list - the path that ends in the 5 s timeout) and EVERY source (any number of elements,
+   ending normally or with a panic, which recoverInProducer turns into an error element): every interleaving is
+   bounded by (|source|+2)(n+2)+n actions, and in every reachable state either run and all consumers have returned or
+   some action is possible - no deadlock, nobody left behind; and a schedule that gets there exists *)
+Theorem multiuse_quiesces : forall (n : nat) (kinds : nat -> MultiUse.ckind) (source : list src_ev),
+  (forall tr s, MultiUse.mrun n true (MultiUse.minit kinds source) tr = Some s ->
+     length tr <= (length source + 2) * (n + 2) + n
+     /\ (MultiUse.mfinal n s = true \/ exists a s', MultiUse.mstep n true s a = Some s'))
+  /\ exists tr s, MultiUse.mrun n true (MultiUse.minit kinds source) tr = Some s /\ MultiUse.mfinal n s = true.
+Proof. exact MultiUseProofs.multiuse_quiesces_lem. Qed.
+
+(* the source-panic case of the above made explicit (two consumers that read everything, the source panics at once),
+   and the same start BEFORE `fix: a panic raised by the list that multiUse reads ...`: run is unwound, nothing is
+   closed, both consumers are alive and no action is possible any more *)
+Theorem multiuse_source_panic_strands_none :
+  exists tr s, MultiUse.mrun 2 true (MultiUse.minit MultiUseProofs.leak_kinds [EvPanic]) tr = Some s /\ MultiUse.mfinal 2 s = true.
+Proof. exact MultiUseProofs.multiuse_source_panic_recovered. Qed.
+
+Theorem multiuse_source_panic_before_repair_refuted :
+  exists s, MultiUse.mrun 2 false (MultiUse.minit MultiUseProofs.leak_kinds [EvPanic]) [MultiUse.AFetch] = Some s
+            /\ MultiUse.mfinal 2 s = false /\ MultiUse.alive_count 2 (MultiUse.cs s) = 2
+            /\ forall a, match a with MultiUse.ACons i => i < 2 -> MultiUse.mstep 2 false s a = None | _ => MultiUse.mstep 2 false s a = None end.
+Proof. exact MultiUseProofs.multiuse_source_panic_unrecovered. Qed.
+
 (* non-vacuity: the witness input and the prediction of the model for it, with and without the drain *)
 Example C12_nonvacuous :
   tokenize TokSysProofs.leak_cfg TokSysProofs.leak_input = [mkTok tNumber [49%N] 1; mkTok tClose [41%N] 1; mkTok tClose [41%N] 1]
@@ -118,6 +147,14 @@ Example C12_nonvacuous :
   /\ TokChan.leaked true (tokenize TokSysProofs.leak_cfg TokSysProofs.leak_input) 2 = 0
   /\ TokChan.leaked false (tokenize TokSysProofs.leak_cfg [49; 32; 41]%N) 2 = 0.
 Proof. vm_compute. repeat split. Qed.
+
+(* non-vacuity of multiuse_quiesces, the timeout path: consumer 0 reads everything, consumer 1 never touches the list;
+   run hands the element to 0, waits five seconds for 1, closes the channels and returns; both consumers return *)
+Example multiuse_timeout_path :
+  option_map (MultiUse.mfinal 2)
+    (MultiUse.mrun 2 true (MultiUse.minit (fun i => if Nat.eqb i 0 then MultiUse.KRead None false else MultiUse.KNever false) [EvItem; EvItem])
+       [MultiUse.AFetch; MultiUse.ASend; MultiUse.ATimeout; MultiUse.ACons 1; MultiUse.ACons 0]) = Some true.
+Proof. vm_compute. reflexivity. Qed.
 
 Print Assumptions drain_terminates_producer.
 Print Assumptions no_goroutine_left.
@@ -132,3 +169,6 @@ Print Assumptions stopped_stage_never_quiet.
 Print Assumptions par_stage_quiesces_partial.
 Print Assumptions source_panic_strands_none.
 Print Assumptions source_panic_before_repair_refuted.
+Print Assumptions multiuse_quiesces.
+Print Assumptions multiuse_source_panic_strands_none.
+Print Assumptions multiuse_source_panic_before_repair_refuted.
